@@ -24,7 +24,7 @@ OUTSIDE = ["the global invariant tying file segments to xorb contents over whole
 def build(fns):
     sc = smt.Script("c02_sha_must_call")
     g = modeb.CFG(mir.find_fn(fns, r"sha256::.*ShaGenerator.*finalize::\{closure#0\}$|sha256::<impl at [^>]*>::finalize::\{closure#0\}$"))
-    fin = g.blocks_calling(r"as Digest>::finalize$|Digest>::finalize$|FixedOutput>::finalize_fixed$")
+    fin = g.blocks_calling(r"as Digest>::finalize$|Digest>::finalize$|FixedOutput>::finalize_fixed$", summary="may")
     resid = g.blocks_calling(r"FromResidual<.*>>::from_residual$")
     rets = sorted(g.real_returns)
     if not fin or not rets:
